@@ -441,7 +441,9 @@ class ExprMixin:
             if base.pt.kind == "ref" and attr != "traverse" and not self.E.registry.by_method.get((base.pt.name, attr)):
                 raise Unsupported(f"unmodelled attribute .{attr} of a {base.pt.name} (line {self.cur_line})")
             return BoundMethod(base, attr)
-        if isinstance(base, (list, tuple, dict, int, View)):
+        if isinstance(base, dict) and attr in base and isinstance(attr, str) and base.get("__module__"):
+            return base[attr]  # function of an imported module registered by a contract file
+        if isinstance(base, (list, tuple, dict, int, View, str)):
             return BoundMethod(base, attr)
         raise Unsupported(f"attribute {attr} of {base!r}")
 
@@ -541,6 +543,10 @@ class ExprMixin:
             return [EnumVal(v.name, m) for m in v.members]
         if isinstance(v, dict):
             return list(v.keys())
+        if isinstance(v, SV) and v.pt.kind == "seq" and v.term.op == "kids":
+            # node.children of an internal node of a binary tree: exactly two items (the arity is an obligation)
+            self.safety(st, smt.Eq(smt.SeqLen(v.term), smt.Int(2)), "children of an internal node of a binary tree are two")
+            return [SV(smt.SeqNth(v.term, smt.Int(j)), v.pt.args[0]) for j in range(2)]
         raise Unsupported(f"iteration over non-static collection {v!r}")
 
     def ev_GeneratorExp(self, node, st, want):
